@@ -8,6 +8,17 @@ fn arg<'a>(args: &'a [String], name: &str) -> Option<&'a str> {
     args.iter().position(|a| a == name).and_then(|i| args.get(i + 1)).map(|s| s.as_str())
 }
 
+/// Replaces libc's `clock_gettime` for everything linked into this binary (std's `SystemTime::now()` included):
+/// CLOCK_REALTIME is shifted by `util::REALTIME_SHIFT_SECS` (0 unless a driver steps the clock); other clocks pass through.
+#[no_mangle]
+pub unsafe extern "C" fn clock_gettime(clock_id: libc::clockid_t, ts: *mut libc::timespec) -> libc::c_int {
+    let rc = libc::syscall(libc::SYS_clock_gettime, clock_id as libc::c_long, ts) as libc::c_int;
+    if rc == 0 && clock_id == libc::CLOCK_REALTIME {
+        (*ts).tv_sec += util::REALTIME_SHIFT_SECS.load(std::sync::atomic::Ordering::SeqCst);
+    }
+    rc
+}
+
 fn main() {
     let args: Vec<String> = std::env::args().collect();
     if args.len() < 3 {
